@@ -1,6 +1,7 @@
 # specs.tr_units -- the decorator wrappers and `play` of playback/tape_recorder.py under contract.
 # Every function below is one *unit job*: it extracts the real function from /repo, executes it symbolically from its `requires`
 # (all paths, all outcomes of every role / interface call) and states the `ensures` clauses per exit as named obligations.
+import os
 import z3
 
 from pyvc.vals import Val, NONE, S, B, I, K, LAT, TYP, sub, SeqV, Str, BASE, fresh, truthy, num, is_num, is_exc, Unsupported
@@ -14,11 +15,11 @@ TR = 'playback.tape_recorder:TapeRecorder.'
 W_IN = TR + '_intercept_input.func_decoration.decorated_function'
 W_OUT = TR + '_intercept_output.func_decoration.decorated_function'
 W_OP = TR + '_operation.func_decoration.decorated_function'
-REPO_ROOT = '/repo'
+REPO_ROOT = os.environ.get('PYVC_REPO', '/repo')
 
 
 def setup(qual, mode, free, inline_post=False):
-    repo = Repo(REPO_ROOT); spec = TRSpec(repo); spec.inline_post_metadata = inline_post
+    repo = Repo(); spec = TRSpec(repo); spec.inline_post_metadata = inline_post
     ex = lib.install(Exec(repo, spec)); spec.install(ex)
     st, selfv, fr, node, info = spec.base_state(mode, free, qual)
     return repo, spec, ex, st, selfv, fr, node, info
